@@ -11,6 +11,7 @@ from . import cmp
 from .common import Disagreement, drive, ROOT
 
 PROP_MODULE = 'PbVerif.Props.C16'
+GEN_TABLES = ('Wrappers',)
 RULE = ('cases = (method, dimension, variant) with variant in {list, tuple, (N,1), (1,N), strided view, float32, int64, x as list/'
         'float32/int, per-point argument as list/column/int, explicit output_dtype, x omitted vs linspace(-1,1,N), method name in other '
         'letter case, module-level function with x_data, positional vs keyword}; the variant call must equal the reference call cast to '
